@@ -12,7 +12,7 @@ import (
 )
 
 func init() {
-	props["C07"] = &propDef{run: runC07, explanation: "Partial (the 'only if' direction and result fidelity). Decided statically: (G1) outside batch mode, Parse succeeds only across the success edge of every protocol rule, per operation type — size gate before decoding, known type, suffix-data and delta presence, every hash rule (length ≤ MaxOperationHashLength, algorithm ∈ MultihashAlgorithms), non-empty patches each with a supported+enabled action and a passing patch validator (for-all loop form), delta size ≤ MaxDeltaSize, delta-hash binding, signing-key rules (present, valid, curve ∈ KeyAlgorithms, nonce empty or of NonceSize), protected-header rules (C02.G4), anchor-origin and time validators, reveal-value match, key-reuse and distinct-commitment rules, deactivate suffix equality; (K1) every one of the nine Protocol parameters the parser/applier read reaches exactly its own sink (comparison with the right length, membership loop, arithmetic with anchorFrom), with the documented operator; (P1) the returned operation carries type, suffix, namespaced id, the original bytes and the anchor origin of the parsed request. Not decided: the 'if' direction (no spurious rejections inside encoding/json, net/url, go-jose) and the semantic correctness of individual patch rules (C13). The protected-header rules of C02.G4 run inside this check as well. Each size limit is compared at exactly one place."}
+	props["C07"] = &propDef{run: runC07, explanation: "Partial (the 'only if' direction and result fidelity). Decided statically: (G1) outside batch mode, Parse succeeds only across the success edge of every protocol rule, per operation type — size gate before decoding, known type, suffix-data and delta presence, every hash rule (length ≤ MaxOperationHashLength, algorithm ∈ MultihashAlgorithms), non-empty patches each with a supported+enabled action and a passing patch validator (for-all loop form), delta size ≤ MaxDeltaSize, delta-hash binding, signing-key rules (present, valid, curve ∈ KeyAlgorithms, nonce empty or of NonceSize), protected-header rules (C02.G4), anchor-origin and time validators, reveal-value match, key-reuse and distinct-commitment rules, deactivate suffix equality; (K1) every one of the nine Protocol parameters the parser/applier read reaches exactly its own sink (comparison with the right length, membership loop, arithmetic with anchorFrom), with the documented operator; (P1) the returned operation carries type, suffix, namespaced id, the original bytes and the anchor origin of the parsed request. Not decided: the 'if' direction (no spurious rejections inside encoding/json, net/url, go-jose) and the semantic correctness of individual patch rules (C13). The protected-header rules of C02.G4 run inside this check as well. Each size limit is compared at exactly one place. The algorithm half of the hash test compares the code GetMultihashCode decodes from a well-formed multihash."}
 }
 
 func lenOf(p string) string  { return "len(" + p + ")" }
@@ -109,6 +109,8 @@ func runC07(c *Ctx) {
 	c.CheckGuard("C07.G1", "ValidateSuffixData:nil-rejected", vs, nil, cmpReject("suffixData == nil rejected", token.EQL, pathIs("$1"), pathIs("nil")))
 	c.guardAll("C07.G1", "ValidateSuffixData:recoveryCommitment", vs, nil, c.hashRule("$1.RecoveryCommitment")...)
 	c.guardAll("C07.G1", "ValidateSuffixData:deltaHash", vs, nil, c.hashRule("$1.DeltaHash")...)
+	// what the algorithm half of that test means: the code of a well-formed multihash is one of the configured ones
+	c.isComputedUsingRule("C07.G1")
 
 	c.CheckGuard("C07.G1", "ValidateDelta:nil-rejected", vd, nil, cmpReject("delta == nil rejected", token.EQL, pathIs("$1"), pathIs("nil")))
 	c.CheckGuard("C07.G1", "ValidateDelta:empty-patches-rejected", vd, nil, cmpReject("len(delta.Patches) == 0 rejected", token.EQL, pathIs("len($1.Patches)"), pathIs("0")))
@@ -117,7 +119,7 @@ func runC07(c *Ctx) {
 	c.CheckGuardLoop("C07.G1", "ValidateDelta:each-patch:GetAction", vd, nil, callTo("patch.GetAction()", getAction, pathIs(elem)))
 	c.CheckGuardLoop("C07.G1", "ValidateDelta:each-patch:enabled", vd, nil, &GCheck{Name: "action ∈ Protocol.Patches", MatchCall: func(c *Ctx, call *ssa.Call, env Env) bool {
 		g := call.Call.StaticCallee()
-		if g == nil || !inModule(g) || !isBoolType(call.Type()) {
+		if g == nil || !inModule(g) || (!isBoolType(call.Type()) && !isErrType(call.Type())) {
 			return false
 		}
 		a := declArgs(call)
@@ -125,7 +127,9 @@ func runC07(c *Ctx) {
 			return false
 		}
 		// g returns true only behind Protocol.Patches[i] == action
-		isAct := func(s string) bool { return s == "$1" || (strings.HasPrefix(s, "conv<") && strings.HasSuffix(s, ">($1)")) }
+		isAct := func(s string) bool {
+			return s == "$1" || (strings.HasPrefix(s, "conv<") && strings.HasSuffix(s, ">($1)"))
+		}
 		isEl := func(s string) bool {
 			return s == "$0.Protocol.Patches[ι]" || (strings.HasPrefix(s, "conv<") && strings.HasSuffix(s, ">($0.Protocol.Patches[ι])"))
 		}
@@ -194,7 +198,8 @@ func runC07(c *Ctx) {
 			if g == nil || !(inModule(g) || isSlicesContains(g)) || !isBoolType(call.Type()) || len(call.Call.Args) != 2 {
 				return false
 			}
-			if c.Path(call.Call.Args[0], env) != "$0.Protocol.KeyAlgorithms" || c.Path(call.Call.Args[1], env) != K+".Crv" {
+			mList, mWanted := memberArgs(call)
+			if c.Path(mList, env) != "$0.Protocol.KeyAlgorithms" || c.Path(mWanted, env) != K+".Crv" {
 				return false
 			}
 			ok, _ := c.isMembershipFn(g)
@@ -226,19 +231,13 @@ func runC07(c *Ctx) {
 		}
 		c.Analysed(f)
 		env := Env{f.Params[2]: "false"}
-		var schemaCall *ssa.Call
-		for _, cl := range findCalls(f, func(cl *ssa.Call) bool {
-			a := declArgs(cl)
-			return len(a) == 1 && c.Path(a[0], nil) == "$1" && strings.Contains(typeShort(cl.Type()), "Request")
-		}) {
-			schemaCall = cl
-			break
-		}
-		if schemaCall == nil {
+		sr := c.requestSchema(f, "Request")
+		if sr == nil {
 			c.Check("C07.G1", typ+":schema", false, f.Pos(), "no request-decoding call")
 			continue
 		}
-		SC := c.Path(schemaCall, nil) + "#0"
+		schemaCall := sr.call
+		SC := sr.SC
 		k := typ + ":"
 		vdChk := callOrInvoke("ValidateDelta(schema.Delta)", vd, "ValidateDelta", pathIs(SC+".Delta"))
 		isOV := func(call *ssa.Call) bool {
@@ -264,7 +263,11 @@ func runC07(c *Ctx) {
 		c.CheckGuard("C07.G1", k+"didSuffix-present", f, env, cmpReject(`didSuffix == "" rejected`, token.EQL, pathIs(SC+".DidSuffix"), pathIs(`""`)))
 		c.CheckGuard("C07.G1", k+"signedData-present", f, env, cmpReject(`signedData == "" rejected`, token.EQL, pathIs(SC+".SignedData"), pathIs(`""`)))
 		c.guardAll("C07.G1", k+"revealValue", f, env, c.hashRule(SC+".RevealValue")...)
-		if dec := schemaCall.Call.StaticCallee(); dec != nil {
+		if schemaCall == nil {
+			// decoded in place: the decode error is this function's own, and there is no helper to require
+			c.CheckGuard("C07.G1", k+"decode-error-propagated", f, env, callTo("json.Unmarshal(payload, request)", jsonU, pathIs("$1")))
+			c.Check("C07.G1", k+"request-decoder-required", true, f.Pos(), "the request is decoded in the parse function itself")
+		} else if dec := schemaCall.Call.StaticCallee(); dec != nil {
 			c.CheckGuard("C07.G1", k+"decode-error-propagated", dec, nil, callTo("json.Unmarshal(payload, request)", jsonU, pathIs("$1")))
 			c.CheckGuard("C07.G1", k+"request-decoder-required", f, env, &GCheck{Name: "request decoder succeeded", MatchCall: func(c *Ctx, call *ssa.Call, env Env) bool { return call == schemaCall }})
 		}
@@ -444,8 +447,20 @@ func (c *Ctx) configSinks() {
 					op = flipOp(op)
 				}
 				if isCmp(op) {
-					// config is on the right after normalisation:  other op' cfg
-					add(fld, "cmp: "+c.Path(other, nil)+" "+flipOp(op).String()+" cfg")
+					// config is on the right after normalisation:  other op' cfg; and the relation written down is the one
+					// under which the function refuses (`if x <= cfg { return nil }; return err` gates x > cfg)
+					rel := flipOp(op)
+					for _, rr := range *x.Referrers() {
+						iff, isIf := rr.(*ssa.If)
+						if !isIf || c.Path(other, nil) == "ι" {
+							continue // (a loop bound is not a gate)
+						}
+						tb, fb := onlyFails(iff.Block().Succs[0]), onlyFails(iff.Block().Succs[1])
+						if fb && !tb {
+							rel = negOp(rel)
+						}
+					}
+					add(fld, "cmp: "+c.Path(other, nil)+" "+rel.String()+" cfg")
 					if cmpSites[fld] == nil {
 						cmpSites[fld] = map[*ssa.BinOp]bool{}
 					}
@@ -590,3 +605,19 @@ func (c *Ctx) configSinks() {
 }
 
 var paramPosRe = regexp.MustCompile(`\$[0-9]+`)
+
+// onlyFails: every return reachable from b is a refusal (and there is one).
+func onlyFails(b *ssa.BasicBlock) bool {
+	seen := reach(b, nil)
+	seen[b] = nil
+	n := 0
+	for x := range seen {
+		if r, ok := x.Instrs[len(x.Instrs)-1].(*ssa.Return); ok {
+			n++
+			if maySucceed(r) {
+				return false
+			}
+		}
+	}
+	return n > 0
+}
